@@ -106,6 +106,18 @@ fn choose_h(kind: HKind, len: usize, salt: usize) -> usize {
 
 /// run the producer program with the given poll schedule; polls are executed inside the hook sink
 pub fn run_schedule(nvars: usize, program: &[OpSpec], schedule: &[Poll], with_chain: bool) -> Result<RunResult, Caught> {
+    run_schedule_drop(nvars, program, schedule, with_chain, None)
+}
+
+/// like `run_schedule`; `drop_last_at`: the last store of the chain is dropped when that many nodes exist
+/// (its receiver disappears, the relay's forwarding fails from then on and must not disturb the relay)
+pub fn run_schedule_drop(
+    nvars: usize,
+    program: &[OpSpec],
+    schedule: &[Poll],
+    with_chain: bool,
+    drop_last_at: Option<usize>,
+) -> Result<RunResult, Caught> {
     let (s1, r1) = crossbeam_channel::unbounded::<BddNode>();
     let (s2, r2) = crossbeam_channel::unbounded::<BddNode>();
     let relay = Rc::new(RefCell::new(if with_chain {
@@ -114,7 +126,7 @@ pub fn run_schedule(nvars: usize, program: &[OpSpec], schedule: &[Poll], with_ch
         drop(s2);
         Bdd::with_receiver(r1)
     }));
-    let last = Rc::new(RefCell::new(Bdd::with_receiver(r2)));
+    let last: Rc<RefCell<Option<Bdd>>> = Rc::new(RefCell::new(Some(Bdd::with_receiver(r2))));
     let records: Rc<RefCell<Vec<PollRecord>>> = Rc::new(RefCell::new(Vec::new()));
     let created = Rc::new(RefCell::new(0usize));
     let sched: Vec<Poll> = schedule.to_vec();
@@ -125,12 +137,30 @@ pub fn run_schedule(nvars: usize, program: &[OpSpec], schedule: &[Poll], with_ch
         let records = records.clone();
         let sched = sched.clone();
         move |cut: usize| {
+            if drop_last_at == Some(cut) {
+                // the downstream store goes away
+                last.borrow_mut().take();
+            }
             for p in sched.iter().filter(|p| p.cut == cut) {
-                let (target, upstream_len) = match p.target {
-                    Target::Relay => (&relay, usize::MAX),
-                    Target::Last => (&last, relay.borrow().nodes.len()),
+                let upstream_len = match p.target {
+                    Target::Relay => usize::MAX,
+                    Target::Last => relay.borrow().nodes.len(),
                 };
-                let mut t = target.borrow_mut();
+                let mut relay_g;
+                let mut last_g;
+                let t: &mut Bdd = match p.target {
+                    Target::Relay => {
+                        relay_g = relay.borrow_mut();
+                        &mut relay_g
+                    }
+                    Target::Last => {
+                        last_g = last.borrow_mut();
+                        match last_g.as_mut() {
+                            Some(b) => b,
+                            None => continue,
+                        }
+                    }
+                };
                 let len_before = t.nodes.len();
                 let h = choose_h(p.kind, len_before, p.salt);
                 let found = t.recv(Term(h));
@@ -194,8 +224,7 @@ pub fn run_schedule(nvars: usize, program: &[OpSpec], schedule: &[Poll], with_ch
         });
         let up = rl.nodes.len();
         drop(rl);
-        if with_chain {
-            let mut l = last.borrow_mut();
+        if let (true, Some(l)) = (with_chain, last.borrow_mut().as_mut()) {
             let len_before = l.nodes.len();
             let found = l.recv(Term(usize::MAX));
             records.borrow_mut().push(PollRecord {
@@ -213,7 +242,7 @@ pub fn run_schedule(nvars: usize, program: &[OpSpec], schedule: &[Poll], with_ch
     let res = RunResult {
         producer_nodes,
         relay_nodes: relay.borrow().nodes.clone(),
-        last_nodes: last.borrow().nodes.clone(),
+        last_nodes: last.borrow().as_ref().map(|b| b.nodes.clone()).unwrap_or_default(),
         records: records.borrow().clone(),
         error,
     };
@@ -260,7 +289,7 @@ pub fn judge(res: &RunResult, with_chain: bool) -> Result<(), String> {
     if res.relay_nodes != *p {
         return Err(format!("after the final drain the relay holds {} entries, the producer {}", res.relay_nodes.len(), p.len()));
     }
-    if with_chain && res.last_nodes != *p {
+    if with_chain && !res.last_nodes.is_empty() && res.last_nodes != *p {
         return Err(format!("after the final drain the last receiver holds {} entries, the producer {}", res.last_nodes.len(), p.len()));
     }
     Ok(())
@@ -338,10 +367,15 @@ pub fn c19_case(cfg: &Cfg, rep: &mut Report, case_seed: u64) {
         schedules.push(s);
     }
     let mut nontrivial = false;
-    for s in &schedules {
+    for (si, s) in schedules.iter().enumerate() {
         rep.evaluations += 1;
-        let replay = json!({"property": "c19", "case_seed": case_seed.to_string(), "nvars": nvars, "ops": nops, "schedule": sched_json(s)});
-        match run_schedule(nvars, &program, s, with_chain) {
+        // in a third of the runs the last store of the chain disappears at some cut
+        let drop_at = if si % 3 == 2 { Some(rng.below(created + 1)) } else { None };
+        if drop_at.is_some() {
+            rep.count("runs_with_downstream_store_dropped", 1);
+        }
+        let replay = json!({"property": "c19", "case_seed": case_seed.to_string(), "nvars": nvars, "ops": nops, "schedule": sched_json(s), "drop_last_at": drop_at});
+        match run_schedule_drop(nvars, &program, s, with_chain, drop_at) {
             Ok(res) => {
                 rep.count("polls_checked", res.records.len() as u64);
                 let cutvec: String = res.records.iter().map(|r| format!("{}{}{};", r.created, if r.target == Target::Relay { 'r' } else { 'l' }, r.table_after.len())).collect();
@@ -378,12 +412,18 @@ pub fn c19_threaded(_cfg: &Cfg, rep: &mut Report, case_seed: u64) {
     let nvars = rng.range(2, 5);
     let nops = rng.range(5, 60);
     let program = producer_program(&mut rng, nvars, nops);
-    let (s1, r1) = crossbeam_channel::unbounded::<BddNode>();
+    // the channels handed in may be bounded: a full channel must stall the producer, never drop a node
+    let cap1 = *rng.pick(&[None, None, Some(1usize), Some(2), Some(3), Some(8)]);
+    let (s1, r1) = match cap1 {
+        None => crossbeam_channel::unbounded::<BddNode>(),
+        Some(c) => crossbeam_channel::bounded::<BddNode>(c),
+    };
     let (s2, r2) = crossbeam_channel::unbounded::<BddNode>();
+    rep.count(&format!("threaded_capacity_{}", cap1.map(|c| c.to_string()).unwrap_or_else(|| "unbounded".into())), 1);
     let seed_a = rng.next_u64();
     let seed_b = rng.next_u64();
     rep.evaluations += 1;
-    let replay = json!({"property": "c19", "case_seed": case_seed.to_string(), "threaded": true});
+    let replay = json!({"property": "c19", "case_seed": case_seed.to_string(), "threaded": true, "capacity": cap1});
     let done = std::sync::Arc::new(std::sync::atomic::AtomicBool::new(false));
 
     let prog2 = program.clone();
